@@ -346,6 +346,10 @@ func init() {
 			return VErr(errCode(err))
 		}
 		v := twice("SCTE35 getters", func() Val { return scteView(s) })
+		// the decoded object stays in the caller's hands while other sections are decoded (stable.go decoy phase): what
+		// it hands out and what its getters say must not move (seeded C08-v1: UPIDs aliasing a pooled decode buffer)
+		scteKeep("after decoding", s)
+		keepView("the getters of the decoded signal", func() string { return valTextFull(scteView(s)) })
 		return VOk(VL(v, VBool(bytes.Equal(in, a[0].B))))
 	})
 	register("scte.reencode", func(a []Val) Val {
